@@ -322,3 +322,19 @@ def split_mult(n):
             if isinstance(m, ast.Name) and m.id in ('mask',) or (isinstance(m, ast.Call) and norm(m.func).split('.')[-1] == 'acq'):
                 return x, m
     return n, None
+
+
+def check_self_products(run, f, rule='R7.self'):
+    """ipow(a, a) is identically 0 modulo 4 (a string multiplied by itself picks up no power of i: the oracle gives
+    ipow(x,z;x,z) = 0 on all four letters), so a phase that adds ipow of an expression with ITSELF adds nothing: where the
+    phase of a product of several rows is accumulated, the powers of i between different rows are lost.  Also counts the
+    ipow call sites of f."""
+    n = 0
+    for c in ast.walk(f.node):
+        if isinstance(c, ast.Call) and norm(c.func).split('.')[-1] == 'ipow' and len(c.args) == 2:
+            n += 1
+            run.check(norm(c.args[0]) != norm(c.args[1]), rule, f, c,
+                      'ipow(%s, %s) multiplies an operator with itself and is 0 for every input: the i-powers between the different rows whose '
+                      'phases are summed here are never accumulated, so the sign of their product is wrong whenever two of them contribute one'
+                      % (norm(c.args[0]), norm(c.args[1])))
+    return n
